@@ -14,11 +14,6 @@ Proof.
   destruct (Ascii.eqb_spec c "g"); [intros H; inversion H; subst; reflexivity|].
   destruct (Ascii.eqb_spec c "b"); [intros H; inversion H; subst; reflexivity|discriminate].
 Qed.
-Lemma decZ_has z x : is_digit x = false -> x <> "-" -> has x (decZ z) = false.
-Proof.
-  intros Hx Hm. destruct z; cbn [decZ]; try now apply dec_has.
-  cbn [has]. rewrite dec_has by exact Hx. destruct (Ascii.eqb_spec "-" x); [subst; contradiction|reflexivity].
-Qed.
 Lemma nsbranch_short ty v : starts_with (lit "ns=") (type_char ty :: "=" :: v) = false.
 Proof. destruct ty; reflexivity. Qed.
 
